@@ -402,6 +402,86 @@ def run(chk):
         return True, "", ["%d narrowing casts, all in the allow table" % n]
     chk.ob("C13.R6:lossless-int-casts", "no integer is narrowed or sign-changed with `as` on its way to a sink's output (outside a reasoned table of timestamps/ids)", lossless_casts)
 
+    def id_carriers():
+        """The id types of the two raw encoders carry the id itself: the JSON (text) ones stream the id's own Display - 32 / 16 lower-case hex
+        digits, zero padded, the form OTLP/JSON prescribes and the protobuf bytes denote - and the protobuf (binary) ones its big-endian
+        bytes; neither re-formats the number on the way."""
+        ev = []
+        for ty, conv in (("TextTraceId", None), ("TextSpanId", None), ("BinaryTraceId", "to_u128"), ("BinarySpanId", "to_u64")):
+            bs = [b for b in bodies if b.crate == "emit_otlp" and b.trait == "sval::value::Value" and b.method == "stream" and (b.self_ty or "").endswith("data::" + ty)]
+            if not bs:
+                raise mir.AnchorMissing("impl sval::Value for %s" % ty)
+            b = bs[0]
+            names = [c.callee.get("name") for c in b.calls(normal_only=True)]
+            if conv is None:
+                d = [c for c in b.calls(normal_only=True) if (c.callee.get("path") or "").startswith("sval::data::text::Display") and c.callee.get("name") == "new"]
+                if len(d) != 1 or not mir.o_is_param(mir.o_root(b.origin(d[0].args[0])), idx=1) or mir.o_field_path(b.origin(d[0].args[0]))[1] != ["0"] \
+                        or set(names) - {"new", "value_computed"}:
+                    return False, ("%s streams %s, not the id's own Display: a hand-formatted id can differ from the 32/16 zero-padded hex digits the "
+                                   "protobuf form denotes (`{:32x}` pads with spaces)" % (ty, [n for n in names if n not in ("new", "value_computed")] or
+                                                                                         mir.o_str(b.origin(d[0].args[0])) if d else names)), [], b.span
+            else:
+                if names != [conv, "to_be_bytes", "new", "value_computed"]:
+                    return False, "%s streams through %s, expected %s -> to_be_bytes -> BinaryArray::new" % (ty, names, conv), [], b.span
+            ev.append(b.span)
+        return True, "", ev
+    chk.ob("C13.R3:id-carriers", "JSON ids are the id's own Display, protobuf ids its big-endian bytes", id_carriers)
+
+    def metric_buckets():
+        """A sequence-valued metric is spread over its extent in contiguous buckets: in the loop of RawPointSet::into_points a point's start is
+        stored before the running time is advanced by one step and its end after; the single-point arm stores the like-named bounds."""
+        bs = [b for b in bodies if "RawPointSet" in b.key and b.key.endswith("::into_points")]
+        if not bs:
+            raise mir.AnchorMissing("RawPointSet::into_points")
+        b = bs[0]
+        stores = {"start_time_unix_nano": [], "time_unix_nano": []}
+        for bb, j, st in b.statements(normal_only=True):
+            if st["k"] == "assign" and st["place"].get("p"):
+                nm = [p.get("n") for p in st["place"]["p"] if isinstance(p, dict) and "n" in p][-1:]
+                if nm and nm[0] in stores:
+                    stores[nm[0]].append((bb, j, st))
+        loop_s = [x for x in stores["start_time_unix_nano"] if b.in_cycle(x[0])]
+        loop_t = [x for x in stores["time_unix_nano"] if b.in_cycle(x[0])]
+        if len(loop_s) != 1 or len(loop_t) != 1:
+            raise mir.AnchorMissing("one start and one end store in the bucket loop")
+        # the running time: the local both stores read; its in-loop definition is the `+ step`
+        def base_local(op, d=0):
+            l = mir.Body._op_local(op)
+            if l is None or d > 4:
+                return l
+            ds = [q for q in b.defs().get(l, ()) if q[2] == "assign"]
+            if len(ds) == 1 and ds[0][3]["k"] == "use" and not b.local_name(l):
+                inner = base_local(ds[0][3]["op"], d + 1)
+                return inner if inner is not None else l
+            return l
+        run = base_local(loop_s[0][2]["rv"]["op"]) if loop_s[0][2]["rv"]["k"] == "use" else None
+        run_t = base_local(loop_t[0][2]["rv"]["op"]) if loop_t[0][2]["rv"]["k"] == "use" else None
+        if run is None or run != run_t:
+            return False, "the bucket's start and end are not taken from one running time", [], b.span
+        incs = [d for d in b.defs().get(run, ()) if d[2] == "assign" and b.in_cycle(d[0])]
+        if len(incs) != 1:
+            return False, "the running time must be advanced exactly once per bucket (found %d in-loop definitions)" % len(incs), [], b.span
+        inc = incs[0]
+        io = b.origin({"m": {"l": run}})
+
+        def before(p, q):
+            if p[0] == q[0]:
+                return p[1] < q[1]
+            return b.dominates(p[0], q[0]) and not b.dominates(q[0], p[0])
+        if not (before(loop_s[0], inc) and before(inc, loop_t[0])):
+            return False, ("in the bucket loop of RawPointSet::into_points the order is not start := t; t += step; end := t (start %s:%s, advance %s, end %s:%s): "
+                           "buckets come out empty or overlapping and the last one does not end at the event's end" %
+                           (b.file, loop_s[0][2].get("line"), inc[3].get("line") if isinstance(inc[3], dict) else "?", b.file, loop_t[0][2].get("line"))), \
+                [], "%s:%s" % (b.file, loop_t[0][2].get("line"))
+        for nm in stores:
+            for bb, j, st in stores[nm]:
+                if not b.in_cycle(bb):
+                    o = b.origin(st["rv"]["op"])
+                    if not (o[0] == "param" and o[2] == nm):
+                        return False, "a single point's %s is set from %s" % (nm, o_str(o)), [], "%s:%s" % (b.file, st.get("line"))
+        return True, "", ["%s:%s" % (b.file, loop_s[0][2].get("line")), "%s:%s" % (b.file, loop_t[0][2].get("line"))]
+    chk.ob("C13.R4:metric-buckets", "a sequence-valued metric's points are contiguous buckets: start, advance by one step, end", metric_buckets)
+
     def point_arithmetic():
         """Integer metric points are accumulated with overflow detection: an integer written to a data point comes straight from the
         input or from the Some payload of a checked operation; a clamped or wrapped total is not the sum and must not be exported
